@@ -261,6 +261,20 @@ class BranchSuite(Suite):
             if sum(lens) == 0:
                 c["class"] += "/zero-length"
             out.append(c)
+        # INPUT FAMILY "branch length next to a whole number of steps" (guaranteed share): a lattice polyline whose last segment is a dyadic
+        # hair 2^-e (e = 7 … 14) longer or shorter — coordinates, segment lengths and their float32 sums stay exact, and the length is
+        # k·d ± 2^-e for every spacing d that divides the lattice length: k steps just below, k + 1 just above
+        for q in range(36 if big else 12):
+            kind = ["iso", "iso", "iso-noadj"][q % 3]
+            pts, lens, r = polyline(rng, rng.choice([2, 3, 4, 6]), zero_ok=False)
+            e = 7 + (q // 3 + rng.randrange(2) * 4) % 8
+            sign = rng.choice([-1, 1, 1])
+            ax = [i for i in range(3) if pts[-1][i] != pts[-2][i]][0]
+            hair = sign * 2.0 ** -e
+            pts[-1][ax] += hair if pts[-1][ax] > pts[-2][ax] else -hair
+            lens[-1] += hair
+            d = rng.choice([x for x in (0.25, 0.5, 1.0, 2.0, 3.0, 5.0) if (sum(lens) - hair) % x == 0 and x <= sum(lens)])
+            out.append({"class": f"{kind}/near-multiple/" + ("above" if sign > 0 else "below") + ("-2^-7…10" if e <= 10 else "-2^-11…14"), "kind": kind, "pts": pts, "lens": lens, "r": r, "d": d})
         return out
 
     def run(self, case):
@@ -673,6 +687,85 @@ def run_pipeline(case):
     return {"stages": stages}
 
 
+FLOAT_SCALES = [1, 3, 10, 30]
+
+
+def scaled_float_trees(rng, count):
+    """INPUT FAMILY "registered coordinates": neurons whose coordinates are short decimals that are NOT on a lattice, at length scales
+    1 / 3 / 10 / 30 (segments of up to 1.5·scale per axis, 8–12 segments per branch: branches tens to hundreds of units long), with the
+    root anywhere within ±10·scale per axis — so branches run towards, along and across the coordinate planes and a branch can be much
+    longer than its end point is away from a plane.  Every scale in turn; radii vary along the branches."""
+    out, q = [], 0
+    while len(out) < count and q < 20 * count:
+        s = FLOAT_SCALES[q % len(FLOAT_SCALES)]
+        q += 1
+        pids, xyz = [-1], [[round(rng.uniform(-10, 10) * s, 2) for _ in range(3)]]
+
+        def grow(start, m):
+            prev = start
+            for _ in range(m):
+                pids.append(prev); xyz.append([round(xyz[prev][i] + s * rng.randint(-1500, 1500) / 1000, 2) for i in range(3)]); prev = len(pids) - 1
+            return prev
+        f = grow(0, rng.randint(8, 12))
+        for _ in range(rng.choice([2, 2, 3])):
+            grow(f, rng.randint(8, 12))
+        if len({tuple(p) for p in xyz}) < len(xyz) or max(abs(c) for p in xyz for c in p) >= 1000:   # beyond 1000 a 2-decimal number is no longer a float32 number to 4 decimals
+            continue
+        t = {"n": len(pids), "pids": pids, "types": [1] + [3] * (len(pids) - 1), "xyz": xyz, "r": [rng.randint(1, 16) / 4 for _ in pids]}
+        out.append({"class": f"iso/float-scale-{s}", "tree": t, "op": "iso", "arg": s * rng.choice([2.0, 1.5, 0.75, 4.0]), "irrational": True, "warm": None})
+    return out
+
+
+def near_multiple_trees(rng, count):
+    """INPUT FAMILY "branch length next to a whole number of steps": a stem and two or three daughters, every branch k·d ± rem long for
+    the spacing d, k = 1 … 12 and a remainder rem = m·10^-e (e = 2, 3, 4) — the boundary of "how many steps of at most d": k steps just
+    below, k + 1 just above.  Branches consist of axis-aligned and 3-4-5 oblique segments in units of d/2; the remainder sits in the last
+    segment.  Coordinates are 4-decimal numbers of magnitude < 100, so float32 storage moves a length by < 1e-5."""
+    out = []
+    for q in range(20 * count):
+        if len(out) >= count:
+            break
+        d = rng.choice([0.5, 1.0, 2.0, 2.5, 5.0])
+        u = d / 2
+        pids, xyz, rems = [-1], [[float(rng.randint(-3, 3)) for _ in range(3)]], []
+
+        def step(p, L, oblique):
+            ax = rng.sample(range(3), 3)
+            v = [0.0, 0.0, 0.0]
+            if oblique:
+                v[ax[0]], v[ax[1]] = rng.choice([-1, 1]) * 0.6 * L, rng.choice([-1, 1]) * 0.8 * L
+            else:
+                v[ax[0]] = rng.choice([-1, 1]) * L
+            return [round(p[i] + v[i], 4) for i in range(3)]
+
+        def grow(start):
+            k = rng.randint(1, 12)
+            e = rng.choice([2, 3, 4])
+            rem = rng.choice([-1, 1, 1]) * rng.choice([2, 3, 5, 8]) * 10.0 ** -e
+            if rem < 0 and -rem >= u:
+                rem = -rem
+            halves, parts = 2 * k, []
+            while halves > 0:
+                h = rng.randint(1, halves) if len(parts) < 2 else halves
+                parts.append(h); halves -= h
+            prev = start
+            for j, h in enumerate(parts):
+                L = h * u + (rem if j == len(parts) - 1 else 0.0)
+                obl = h % 5 == 0 and j < len(parts) - 1         # 5 half-units = a (3, 4, 5)·u/… segment with 4-decimal coordinates
+                pids.append(prev); xyz.append(step(xyz[prev], L, obl)); prev = len(pids) - 1
+            rems.append(("above" if rem > 0 else "below") + f"-1e-{e}")
+            return prev
+        f = grow(0)
+        for _ in range(rng.choice([2, 2, 3])):
+            grow(f)
+        if len({tuple(p) for p in xyz}) < len(xyz):
+            continue
+        t = {"n": len(pids), "pids": pids, "types": [1] + [3] * (len(pids) - 1), "xyz": xyz, "r": [rng.randint(1, 16) / 4 for _ in pids]}
+        sides = {x.split("-")[0] for x in rems}
+        out.append({"class": "iso/near-multiple/" + (sides.pop() if len(sides) == 1 else "above+below"), "tree": t, "op": "iso", "arg": d, "irrational": True, "warm": None})
+    return out
+
+
 class TreeSuite(Suite):
     name = "c16.tree"
     case_timeout = 60
@@ -727,6 +820,8 @@ class TreeSuite(Suite):
                 continue
             t = {"n": len(pids), "pids": pids, "types": [1] + [3] * (len(pids) - 1), "xyz": xyz, "r": [1.0] * len(pids)}
             out.append({"class": "iso/float-Y", "tree": t, "op": "iso", "arg": rng.choice([2.0, 1.5, 0.75]), "warm": None})
+        out += scaled_float_trees(rng, 16 if not big else 48)
+        out += near_multiple_trees(rng, 10 if not big else 30)
         k = 0
         for n in [2, 3, 4, 6, 9, 14] + ([30, 80] if big else []):
             for _ in range(2 if not big else 5):
@@ -932,7 +1027,8 @@ class TreeSuite(Suite):
                         if orig[-1] in set_in:
                             break
                     orig.reverse()
-                    pts = [t["xyz"][x] for x in orig]
+                    # the branch as the library receives it: coordinates are stored in float32
+                    pts = [[float(np.float32(c)) for c in t["xyz"][x]] for x in orig]
                     if rnd(pts[0]) != rnd(res["xyz"][chain[0]]):
                         why = why or ("resample-connectivity", "a branch of the result leaves another key node than the original branch ending there")
                         continue
@@ -940,13 +1036,15 @@ class TreeSuite(Suite):
                     Lb = sum(lens)
                     n_expected = int(math.ceil(Lb / d)) + 1
                     irrational = case.get("irrational") or case["class"].startswith("iso/float") or abs(Lb / unit - round(Lb / unit)) > 1e-9   # lattice branches have lengths that are multiples of the unit
-                    if irrational and abs(Lb / d - round(Lb / d)) < 1e-3:
-                        why = None; break      # an irrational branch length that is a multiple of the spacing up to rounding: either count is right
+                    # what float32 arithmetic (differences, square roots, the running sum of the segment lengths) can move an arc length by
+                    noise = EPS32 * Lb * (len(lens) + 4)
+                    if irrational and abs(Lb - round(Lb / d) * d) <= noise + 1e-9 * d:
+                        why = None; break      # an irrational branch length that is a multiple of the spacing up to float32 rounding: either count is right
                     # steps along each branch: equal and no longer than the spacing — n-1 steps of L/(n-1)
                     if len(chain) != n_expected:
                         why = why or ("resample-branch-count", f"a branch of length {Lb} resampled at {d} has {len(chain)} nodes, expected ceil(L/d)+1 = {n_expected}")
                         continue
-                    if max(gaps) > Lb / (n_expected - 1) + 1e-4 + ftol:
+                    if max(gaps) > Lb / (n_expected - 1) + 1e-4 + ftol + noise:
                         why = why or ("resample-step", f"a branch of length {Lb} resampled at {d}: gaps {['%.3f' % g for g in gaps[:12]]} exceed the equal step {Lb / (n_expected - 1):.4f}")
                         continue
                     # every other node lies on the original polyline at its equal arc-length step, with the linearly interpolated radius
@@ -955,9 +1053,9 @@ class TreeSuite(Suite):
                     for q in range(1, len(chain) - 1):
                         sq = q * Lb / (n_expected - 1)
                         pq, rq = along(pts, lens, rr_in, sq)
-                        if not close(res["xyz"][chain[q]], pq):
+                        if not close(res["xyz"][chain[q]], pq, 1e-4 + EPS32 * mag + noise):
                             bad = ("resample-off-polyline", f"node {q} of a resampled branch of length {Lb} (d={d}) is at {res['xyz'][chain[q]]}, the original polyline at arc length {sq:.4f} is {pq}"); break
-                        rlo, rhi = radius_range(pts, lens, rr_in, sq, 1e-4 + ftol)
+                        rlo, rhi = radius_range(pts, lens, rr_in, sq, 1e-4 + ftol + noise)
                         if not rlo - 1e-4 * max(1.0, abs(rlo)) <= res["r"][chain[q]] <= rhi + 1e-4 * max(1.0, abs(rhi)):
                             bad = ("resample-radius", f"node {q} of a resampled branch of length {Lb} (d={d}) has radius {res['r'][chain[q]]}, linear interpolation along the branch gives {rq}"); break
                     if bad is None:
